@@ -724,3 +724,10 @@ func StripLine(s string) string {
 	}
 	return s[:i]
 }
+
+// AtExit is used by the conformance flavour of this package; under the controlled scheduler
+// whatever a scenario leaves behind is killed at the end of the execution.
+func AtExit(func()) {}
+
+// Conformance reports whether this is the conformance flavour (unrewritten code under testing/synctest).
+const Conformance = false
